@@ -895,6 +895,9 @@ pub fn mutate_tokens(rng: &mut Rng, src: &str, n: usize) -> String {
 /// declarations, `this` forms, destructuring defaults, unary zoo, labelled continue, tagged member
 /// templates, comments between operands, inner directives, redeclarations, import.meta, HTML comments...
 pub const ZOO: &[&str] = &[
+    r####"function z50(a, b, o) { delete o.find(a + b); delete (o.prop); delete 0; delete this; delete a?.b; delete o[a + b]; delete o.p.q; delete (0, o.p); delete `t${a}`; return a + b; }"####,
+    r####"function z51(a, b) { return fn0() + fn0(a) + fn0(...b) + fn0(a, b, a + b) + trim() + concat() + fn0?.() + new fn0() + fn0`t` + (0, fn0)() + fn0.call(); }"####,
+    r####"function z52(a, b) { return `${a}${'px'}${'!'}` + `${'<b>'}${a}${'</b>'}` + `${'x'}${'y'}${a}` + `${1}${a}${null}${b}${true}` + `${`${a}`}${'z'}`; }"####,
     r####"function z47(a, b) { return a[b].concat.call(a[b], b) + a[b].handler.trim.apply(a, [b]) + a.b[0].c.substring.call(b, 1) + a()[b].trim.call(a); }"####,
     r####"class Z48 { #name = 'n'; m(a, b) { return this.#name.trim.call(a) + this.#name.concat.apply(a, [b]) + a.#name?.trim(); } static #s(a) { return a.trim.call(a); } }"####,
     r####"function z49(a, b) { return a?.[b].concat.call(a, b) + (a ?? b)[0].trim.call(b) + new a[b].concat.call(b); }"####,
